@@ -826,9 +826,16 @@ impl<'a> Validator<'a> {
                 }
                 // An anchor is a property, not a node: whatever follows it still
                 // begins one, so `at_node_start` carries through.
-                Some(b'&') if self.at_quote_start() => {
+                Some(b'&') if self.at_node_start && self.at_quote_start() => {
                     suppress_nested = true;
                     self.scan_anchor()?;
+                }
+                // A tag is a property too: skip it and keep expecting the node.
+                // Inside a plain scalar (`a: wow ! yes`) a `!` is content.
+                Some(b'!') if self.at_node_start && self.at_quote_start() => {
+                    while !matches!(self.peek(), None | Some(b' ' | b'\t' | b'\n' | b'\r')) {
+                        self.advance();
+                    }
                 }
                 Some(b'*') if self.at_quote_start() => {
                     suppress_nested = true;
@@ -844,7 +851,10 @@ impl<'a> Validator<'a> {
                         && matches!(self.peek_at(1), None | Some(b' ' | b'\t' | b'\n' | b'\r'));
                     self.advance();
                 }
-                Some(b'"') if self.at_quote_start() => {
+                // A quote, bracket or block scalar indicator opens a node only
+                // where a node may begin; after a space inside a plain scalar
+                // (`a: say "hi" there`, `a: see [1]`, `a: x > y`) it is content.
+                Some(b'"') if self.at_node_start && self.at_quote_start() => {
                     // A value scalar's continuation lines must be indented past
                     // the key (QB6E); a key/root scalar imposes no minimum here.
                     let min = if seen_value_indicator {
@@ -856,7 +866,7 @@ impl<'a> Validator<'a> {
                     self.check_after_block_quoted(multiline)?;
                     self.at_node_start = false;
                 }
-                Some(b'\'') if self.at_quote_start() => {
+                Some(b'\'') if self.at_node_start && self.at_quote_start() => {
                     let min = if seen_value_indicator {
                         self.line_indent + 1
                     } else {
@@ -896,12 +906,12 @@ impl<'a> Validator<'a> {
                     // The entry's value node follows the indicator.
                     self.at_node_start = true;
                 }
-                Some(b'[' | b'{') if self.at_quote_start() => {
+                Some(b'[' | b'{') if self.at_node_start && self.at_quote_start() => {
                     self.scan_flow()?;
                     self.check_after_top_level_flow()?;
                     self.at_node_start = false;
                 }
-                Some(b'|' | b'>') if self.at_block_scalar_header() => {
+                Some(b'|' | b'>') if self.at_node_start && self.at_block_scalar_header() => {
                     self.scan_block_scalar_header()?;
                     self.skip_block_scalar_body(parent_indent);
                     return Ok(());
